@@ -402,13 +402,35 @@ func init() {
 	}
 }
 
+// akiValue is AuthorityKeyIdentifier ::= SEQUENCE { keyIdentifier [0] OPTIONAL, authorityCertIssuer [1]
+// GeneralNames OPTIONAL, authorityCertSerialNumber [2] OPTIONAL } in the form the tag names:
+// k1/k2/k3 keyIdentifier only; k1full/k2full all three fields; isonly issuer + serial without keyIdentifier.
 func akiValue(k string) []byte {
-	id, ok := keyIDs[k]
-	if !ok {
+	base, full, noKey := k, false, false
+	switch k {
+	case "k1full":
+		base, full = "k1", true
+	case "k2full":
+		base, full = "k2", true
+	case "isonly":
+		full, noKey = true, true
+	}
+	id, ok := keyIDs[base]
+	if !ok && !noKey {
 		panic("aki " + k)
 	}
 	return seq(func(b *cryptobyte.Builder) {
-		b.AddASN1(cbasn1.Tag(0).ContextSpecific(), func(b *cryptobyte.Builder) { b.AddBytes(id) })
+		if !noKey {
+			b.AddASN1(cbasn1.Tag(0).ContextSpecific(), func(b *cryptobyte.Builder) { b.AddBytes(id) })
+		}
+		if full {
+			b.AddASN1(cbasn1.Tag(1).ContextSpecific().Constructed(), func(b *cryptobyte.Builder) { // GeneralNames
+				b.AddASN1(cbasn1.Tag(4).ContextSpecific().Constructed(), func(b *cryptobyte.Builder) { // directoryName (EXPLICIT: Name is a CHOICE)
+					b.AddBytes(nameDER(Name{"ROOT", "printable"}))
+				})
+			})
+			b.AddASN1(cbasn1.Tag(2).ContextSpecific(), func(b *cryptobyte.Builder) { b.AddBytes([]byte{0x00, 0xc3, 0x01}) })
+		}
 	})
 }
 
